@@ -338,6 +338,7 @@ func blockOnListChangeWorker(
 			unblockCh := ctx.cs.capture()
 			defer ctx.cs.releaseCapture()
 
+			defer simYield("block.woke")
 			select {
 			case reason := <-unblockCh:
 				// abort this command - connectivity lost, or explicitly unblocked via another client
